@@ -14,6 +14,8 @@ flock 9
 if ! cmp -s _CoqProject.new _CoqProject 2>/dev/null; then mv _CoqProject.new _CoqProject; rm -f Makefile Makefile.conf; else rm -f _CoqProject.new; fi
 [ -f Makefile ] || coq_makefile -f _CoqProject -o Makefile >/dev/null
 ulimit -s unlimited 2>/dev/null || true
+# no single coqc may eat the machine (a runaway vm_compute reached 38 GB once): 24 GB of address space at most
+ulimit -v 24000000 2>/dev/null || true
 # -k: one property's broken file must not stop the others from building; every check verifies that the
 # .vo files of ITS dependency closure are present and newer than their sources (harness/common.py).
 rc=0
